@@ -29,9 +29,13 @@ def run(rep):
                        "(A []int, B []int, []int), each followed by a full observation of the table (names, toGenerate, done, "
                        "nameOf/newName of every type list), + random sequences (3..32 ops) over larger universes (types from "
                        "same-named packages, non-ASCII names, interfaces), random prefixes (incl. empty) and reserved sets; "
-                       "T2: all assignments of <= k calls to 3 names x 3 types x 2 plugins, under all 4 flag combinations, "
-                       "reserved names / file split chosen at random per package, + random packages of 5..12 calls over 8 types "
-                       "and 3 plugins with injected conflicts and duplicates; distinct = distinct (package, flags) runs whose "
+                       "T2: all assignments of <= k calls to 3 names x 3 types x 2 plugins, and all assignments of <= k equal calls "
+                       "to 3 names x 3 types x {one, two arguments} with at least one curried one-argument call (argument lists "
+                       "that are proper prefixes of others), under all 4 flag combinations; reserved names declared as func / "
+                       "func-typed var / type-used-in-a-conversion, in two thirds of the conflicting packages exactly the next "
+                       "candidates newName tries for the conflicting call; file split at random; + random packages of 5..12 "
+                       "calls over 8 types and 4 plugins (equal, compare, tuple with one or two arguments, hash) with injected "
+                       "conflicts and duplicates; distinct = distinct (package, flags) runs whose "
                        "package contains at least one conflict or duplicate")
     rep.assumptions += [
         "the argument types of the T2 packages are pairwise non-assignable unless identical (the property's own domain; "
